@@ -111,6 +111,8 @@ pub struct Outcome {
 	pub fails: Vec<Fail>,
 	/// canonical (n1) encoding of the final graph
 	pub final_n1: Vec<u8>,
+	/// the same with node channel lists left in stored order
+	pub final_n0s: Vec<u8>,
 	pub final_snap: Snap,
 	pub final_graph: Option<Arc<Graph>>,
 	/// labels of the messages accepted, in order
@@ -265,7 +267,7 @@ pub fn execute(u: &Universe, rgs: &[RgsSnapshot], steps: &[Step], st: &mut Stats
 					if let (Some(a), Some(b)) = (&pc.dirs[d], &c.dirs[d]) {
 						if a != b {
 							if b.ts <= a.ts {
-								fail("replaced-by-older-or-equal", si, format!("{}: direction {} of {:x} went from ts {} to ts {}", label, d, scid >> 40, a.ts, b.ts));
+								fail("replaced-by-older-or-equal", si, format!("{}: direction {} of channel {} went from ts {} to ts {}", label, d, scid >> 40, a.ts, b.ts));
 							} else {
 								st.wit("update_replaced_by_newer");
 							}
@@ -367,6 +369,16 @@ pub fn execute(u: &Universe, rgs: &[RgsSnapshot], steps: &[Step], st: &mut Stats
 				if snap.channels.len() < prev_snap.channels.len() {
 					st.wit("pruning_removed_channel");
 				}
+				for (scid, c) in &prev_snap.channels {
+					// channels announced by a snapshot carry an explicit (backdated) receipt time
+					if c.cap.is_none() && c.ann.is_none() && c.dirs.iter().any(|d| d.is_none()) {
+						if snap.channels.contains_key(scid) {
+							st.wit("pruning_kept_snapshot_channel_lacking_a_direction");
+						} else {
+							st.wit("pruning_removed_snapshot_channel_lacking_a_direction");
+						}
+					}
+				}
 				if snap.nodes.len() < prev_snap.nodes.len() {
 					st.wit("pruning_removed_node");
 				}
@@ -407,5 +419,5 @@ pub fn execute(u: &Universe, rgs: &[RgsSnapshot], steps: &[Step], st: &mut Stats
 		prev_canon = canon;
 	}
 	let final_snap = prev_snap;
-	Outcome { fails, final_n1: prev_canon.n1, final_snap, final_graph: if keep_graph { Some(g) } else { None }, trace }
+	Outcome { fails, final_n1: prev_canon.n1, final_n0s: prev_canon.n0s, final_snap, final_graph: if keep_graph { Some(g) } else { None }, trace }
 }
